@@ -87,9 +87,28 @@ def _answer(b, op):
     raise ValueError(op)
 
 
+def _sibling_prelude(case):
+    """Environment activity before the history starts: ANOTHER, unrelated BpSeq object with the same base
+    pairs but a different sequence and two more (unpaired) nucleotides is created in the same process and
+    asked for everything.  The property quantifies over all call histories of an object; what the process
+    did with other objects before must not show in its answers (no process-wide state keyed by part of
+    the input).  The sibling's own answers are not part of the trace."""
+    n = case["n"] + 2
+    sib = {"n": n, "pairs": case["pairs"],
+           "seq": [ss.LETTERS[(ss.LETTERS.index(x) + 1) % 4] for x in case["seq"]] + ["G", "A"]}
+    b = ss._bpseq(sib)
+    for op in ("dot_bracket", "fcfs", "elements", "all", "without_pseudoknots", "without_isolated", "str"):
+        try:
+            _answer(b, op)
+        except Exception:
+            pass
+
+
 def record_history(case):
     from rnapolis.common import BpSeq
     c = dict(case)
+    if case.get("prelude"):
+        _sibling_prelude(case)
     first = ss._bpseq(case)
     objs = [first]
     orig_text = [str(first)]          # text of every object at its creation
